@@ -245,7 +245,13 @@ def gen_buffer_plan(rng, sc):
     nsrc = rng.randint(12, 30) if deep else rng.randint(3, 9)
     for _ in range(nsrc):
         ln = rng.choice([0, 1, 2, 3, 5, 8, 13, 30])
-        p.sources.append(Source(gen_input(rng, sc.alphabet, ln, stray=0.02), gen_sched(rng)))
+        sched = gen_sched(rng)
+        if rng.random() < 0.15:
+            # the stream says "end" although data remain: a buffer whose last token ran into that end
+            # and which is flushed or returned to later reads the stream again
+            sched = list(sched)
+            sched.insert(rng.randint(0, len(sched)), 'E')
+        p.sources.append(Source(gen_input(rng, sc.alphabet, ln, stray=0.02), sched))
     it = p.insts[0]
     it.top.append(Op('INIT', a=rng.randint(0, 1)))
 
